@@ -1,5 +1,4 @@
 # htx.rs — unit U6: header, bucket table, bitmap, scan.
-@include prelude_htx.rs
 @mod htx
 @type src/filedb/inner/htx.rs | HeaderSignature
 @type src/filedb/inner/htx.rs | CHUNK_SIZE
